@@ -246,7 +246,9 @@ def shrink_traced_types(
 
 def get_typed_dict_class_name(parameter_name: str) -> str:
     """Return the name for a TypedDict class generated for parameter `parameter_name`."""
-    return f"{pascal_case(parameter_name)}TypedDict__RENAME_ME__"
+    class_name = f"{pascal_case(parameter_name)}TypedDict__RENAME_ME__"
+    # A hint such as `_1` would give a name starting with a digit.
+    return class_name if class_name.isidentifier() else "_" + class_name
 
 
 class Stub(metaclass=ABCMeta):
